@@ -214,7 +214,8 @@ Fixpoint quietb (n : nat) (forbid : bool) (e : expr) : option bool :=
 
 (** judge of one observation: [ctx] 0 function / 1 procedure / 2 module level, [chunks] the body, [accepted]
     whether the implementation reported no effect error for it.
-    0 = fine, 1 = effect inside a function accepted, 2 = quiet procedure / top-level body rejected,
+    0 = fine, 1 = effect inside a function accepted (the subroutine itself for ctx 0, a function / function lambda
+    / constant definition nested in the body for every ctx), 2 = quiet procedure / top-level body rejected,
     3 = as 1 but in the known class, -1 = out of fuel *)
 Definition any_ob (l : list (option bool)) : option bool :=
   match all_some l with Some r => Some (existsb (fun b => b) r) | None => None end.
@@ -222,14 +223,16 @@ Definition all_ob (l : list (option bool)) : option bool :=
   match all_some l with Some r => Some (forallb (fun b => b) r) | None => None end.
 
 Definition judge (n : nat) (ns : str) (ctx : Z) (pub : bool) (name : str) (chunks : list expr) (accepted : bool) : Z :=
-  if ctx =? 0 then
-    let c := ctx_func ns pub name in
-    match any_ob (map (effect_inb false n c) chunks), any_ob (map (effect_inb true n c) chunks) with
-    | Some a, Some v => if accepted then (if v then 1 else if a then 3 else 0) else 0
-    | _, _ => -1
-    end
-  else
-    match all_ob (map (quietb n false) chunks) with
-    | Some q => if q && negb accepted then 2 else 0
-    | None => -1
-    end.
+  let c := if ctx =? 0 then ctx_func ns pub name else if ctx =? 1 then ctx_proc ns pub name else ctx_top ns in
+  (* in a procedure / at module level [EffectIn] finds the effects of the functions nested in the body *)
+  match any_ob (map (effect_inb false n c) chunks), any_ob (map (effect_inb true n c) chunks) with
+  | Some a, Some v =>
+    if accepted then (if v then 1 else if a then 3 else 0)
+    else if ctx =? 0 then 0
+    else
+      match all_ob (map (quietb n false) chunks) with
+      | Some q => if q then 2 else 0
+      | None => -1
+      end
+  | _, _ => -1
+  end.
